@@ -27,13 +27,13 @@ pub fn def() -> PropDef {
     PropDef {
         id: "C06",
         level: "fault_enumeration",
-        rule: "every history of <= d operations over {insert a/ab/a\\xff, delete prefix a/'', remote older, remote newer, flush, snapshot-read, remove document, re-create document} (family A) and over {register peer 1/2, set policy 1/2, insert a, remove, re-create, flush} (family B) on a file-backed store; a baseline run numbers every store access point (hook at Store::tables/modify); then every placement of <= k 'transaction looks older than the commit delay' answers among the points where a write transaction is open, and in every such run a crash image (copy of the database file, live store untouched) at every access point and after every operation; each distinct image is reopened and must show the reference state after j complete operations with last-acknowledged-flush <= j <= operations-started, with records, by-key index, heads, point lookups, namespaces and authors mutually consistent; non-trivial = distinct (image content, window) pairs whose window spans an unacknowledged or in-progress operation",
+        rule: "every history of <= d operations over {insert a/ab/a\\xff, delete prefix a/'', remote older, remote newer, flush, snapshot-read, remove document, re-create document} (family A) and over {register peer 1/2, set policy 1/2, insert a, remove, re-create, flush} (family B) and, after filling the useful-peer cache to its capacity, over {register a new peer 1/2, the oldest / the newest cached peer again, insert a, flush} (family C) on a file-backed store; a baseline run numbers every store access point (hook at Store::tables/modify); then every placement of <= k 'transaction looks older than the commit delay' answers among the points where a write transaction is open, and in every such run a crash image (copy of the database file, live store untouched) at every access point and after every operation; each distinct image is reopened and must show the reference state after j complete operations with last-acknowledged-flush <= j <= operations-started, with records, by-key index, heads, point lookups, namespaces and authors mutually consistent; non-trivial = distinct (image content, window) pairs whose window spans an unacknowledged or in-progress operation",
         assumptions: &[
             "crash = process kill: the image is what the OS holds for the file at that instant; power loss, torn sectors and crashes inside redb's own commit are redb's contract",
             "an extra age-based commit caused by real elapsed time can only move the recovered state forward inside the accepted window, never raise an alarm",
         ],
         bound: |t| match t {
-            Tier::Quick => json!({"histories": "depth <= 4 over 11 operations with <= 1 forced-old answer; depth <= 3 with <= 2", "family_B": "depth <= 3 with <= 2", "forced_old_answers": "<= 2"}),
+            Tier::Quick => json!({"histories": "depth <= 4 over 11 operations with <= 1 forced-old answer; depth <= 3 with <= 2", "family_B": "depth <= 3 with <= 2", "family_C": "depth <= 2 with <= 2 after the filling prefix", "forced_old_answers": "<= 2"}),
             Tier::Thorough => json!({"histories": "depth <= 5 with <= 1 forced-old answer; depth <= 4 with <= 2", "forced_old_answers": "<= 2"}),
         },
         run,
@@ -63,7 +63,15 @@ pub enum Op {
     /// set download policy 1 / 2
     Policy1,
     Policy2,
+    /// register useful peer n (family C: a peer cache that is full, so that a registration
+    /// inserts one row and evicts another)
+    PeerN(u8),
 }
+
+/// family C: the prefix fills the peer cache to its capacity of five and makes that durable
+const PREFIX_C: [Op; 6] = [Op::PeerN(3), Op::PeerN(4), Op::PeerN(5), Op::PeerN(6), Op::PeerN(7), Op::Flush];
+/// ... then: two new peers, the oldest and the newest cached one again, an entry, a flush
+const OPS_C: [Op; 6] = [Op::PeerA, Op::PeerB, Op::PeerN(3), Op::PeerN(7), Op::InsA, Op::Flush];
 
 /// second alphabet: the per-document settings next to entries, removal and re-creation
 const OPS_B: [Op; 8] = [
@@ -271,12 +279,18 @@ fn run_history(hist: &[Op], forced: &BTreeSet<u64>, dir: &Path) -> RunResult {
                 peers.clear();
                 policy = 0;
             }
-            Op::PeerA | Op::PeerB => {
-                let p = if matches!(op, Op::PeerA) { 1u8 } else { 2u8 };
+            Op::PeerA | Op::PeerB | Op::PeerN(_) => {
+                let p = match op {
+                    Op::PeerA => 1u8,
+                    Op::PeerB => 2u8,
+                    Op::PeerN(n) => *n,
+                    _ => unreachable!(),
+                };
                 let _ = sut.store.register_useful_peer(ns, [p; 32]);
                 if exists {
                     peers.retain(|x| *x != p);
                     peers.insert(0, p);
+                    peers.truncate(5);
                 }
             }
             Op::Policy1 | Op::Policy2 => {
@@ -516,6 +530,12 @@ fn evaluate(
 }
 
 fn check_history(hist: &[Op], max_forced: usize, report: &mut Report, ordinal: u64) {
+    check_history_from(hist, 0, max_forced, report, ordinal)
+}
+
+/// `prefix_len`: the first operations of the history only set the scene; forced-old answers are
+/// placed at access points of the operations after them.
+fn check_history_from(hist: &[Op], prefix_len: usize, max_forced: usize, report: &mut Report, ordinal: u64) {
     let dir = scratch_dir();
     let mut cache: HashMap<[u8; 32], Recovered> = HashMap::new();
     let mut seen: BTreeSet<([u8; 32], usize, usize)> = BTreeSet::new();
@@ -546,7 +566,14 @@ fn check_history(hist: &[Op], max_forced: usize, report: &mut Report, ordinal: u
     let Some(base) = one(&BTreeSet::new(), report) else {
         return;
     };
-    let candidates: Vec<u64> = (0..base.points)
+    let first_point = base
+        .images
+        .iter()
+        .filter(|(_, _, started, point)| *started > prefix_len && *point != u64::MAX)
+        .map(|(_, _, _, point)| *point)
+        .min()
+        .unwrap_or(0);
+    let candidates: Vec<u64> = (first_point.min(base.points)..base.points)
         .filter(|i| base.write_open[*i as usize])
         .collect();
     if max_forced >= 1 {
@@ -598,6 +625,19 @@ fn run(ctx: &Ctx, report: &mut Report) {
             }
             let hist: Vec<Op> = seq.iter().map(|&i| OPS_B[i]).collect();
             check_history(&hist, k_b, report, ordinal);
+        });
+    }
+    // family C: a full peer cache
+    let depth_c = if ctx.quick() { 2 } else { 3 };
+    for d in 1..=depth_c {
+        for_each_sequence(OPS_C.len(), d, |seq| {
+            ordinal += 1;
+            if !ctx.mine(ordinal) {
+                return;
+            }
+            let mut hist: Vec<Op> = PREFIX_C.to_vec();
+            hist.extend(seq.iter().map(|&i| OPS_C[i]));
+            check_history_from(&hist, PREFIX_C.len(), 2, report, ordinal);
         });
     }
     report.fact("deviation_bound_completed", json!(2));
